@@ -59,7 +59,7 @@ prop("C16", title="compile-time rules", impl="rustc",
               "coq/Static.v checks signature tables only; Rust's borrow checker, auto-trait derivation and variance are NOT modelled"])
 prop("C17", title="ill-behaved safe callbacks", equiv=["EquivRetain.loop_equiv", "EquivRetain.retain_equiv", "EquivRetain.loop_equivD", "EquivRetain.dedup_by_equiv"], trusted=[HAND, EXTR, UBDEF])
 prop("C18", title="allocation failure", equiv=[], quick_n=480, thorough_n=3000, profiles="dr", trusted=[HAND, EXTR])
-prop("C19", title="serde", equiv=["EquivSerde.map_size_hint_equiv", "EquivSerde.inplace_reservation", "EquivSerde.fresh_reservation", "EquivSerde.upfront_reservation_bounded", "EquivSerdeSeq.loop_equivQ", "EquivSerdeSeq.visit_seq_equiv"], impl="serde",
+prop("C19", title="serde", equiv=["EquivSerde.map_size_hint_equiv", "EquivSerde.inplace_reservation", "EquivSerde.fresh_reservation", "EquivSerde.upfront_reservation_bounded", "EquivSerdeSeq.loop_equivQ", "EquivSerdeSeq.visit_seq_equiv", "EquivSerde.serialize_delegates_to_collect_seq"], impl="serde",
      trusted=["VecVisitor::visit_seq is regenerated and tied (EquivSerdeSeq.v) in a world where the SeqAccess is a script of answers; the element loop of the in-place visitor (next_element_seed into &mut self.0[i]) and Serialize are not modelled in Coq: they are exercised by the harness with a recording serializer and a scripted SeqAccess", "serde's own traits and serde_json are trusted as the observed oracle of the probe"])
 
 def coq_side(ctx, P):
